@@ -494,8 +494,15 @@ pub fn check_property(plan: &Plan) -> i32 {
             }
         }));
     }
+    let mut worker_died = false;
     for h in handles {
-        let _ = h.join();
+        if h.join().is_err() {
+            worker_died = true;
+        }
+    }
+    if worker_died || results.lock().unwrap().is_empty() {
+        eprintln!("HARNESS-ERROR: a worker thread died or no run was executed (generator or driver failure)");
+        return 2;
     }
     if let Some(e) = harness_err.lock().unwrap().clone() {
         eprintln!("HARNESS-ERROR: {e}");
